@@ -138,7 +138,16 @@ func runOpPair(a *args, res *result) {
 }
 
 // runPair drives the schedule; execA / execB perform and record the calls.
+// longWait: once per (kind, state, A, B) the second call is left waiting for the parked
+// first call some 80000 spins instead of 2048 before the first call is resumed - a
+// wait that gives up (or goes ahead) after a bounded number of attempts shows then.
+var longWaitDone = map[string]bool{}
+
 func runPair(N int64, execA, execB func() *hev, stuckCh chan string) (ha, hb *hev, parked bool, stuck string) {
+	return runPairW(N, execA, execB, stuckCh, "")
+}
+
+func runPairW(N int64, execA, execB func() *hev, stuckCh chan string, pairKey string) (ha, hb *hev, parked bool, stuck string) {
 	vshim.SetTokenMode(true)
 	vshim.ResetGStep()
 	vshim.SetStepBudget(0)
@@ -164,6 +173,17 @@ func runPair(N int64, execA, execB func() *hev, stuckCh chan string) (ha, hb *he
 	case hb = <-bdone:
 	case <-vshim.SpinNotified():
 		// B waits for something A holds
+		if pairKey != "" && !longWaitDone[pairKey] {
+			longWaitDone[pairKey] = true
+			for i := 0; i < 40 && hb == nil && stuck == ""; i++ {
+				vshim.ArmSpinNotify()
+				select {
+				case hb = <-bdone:
+				case <-vshim.SpinNotified():
+				case stuck = <-stuckCh:
+				}
+			}
+		}
 	case stuck = <-stuckCh:
 	}
 	vshim.DisarmSpinNotify()
@@ -239,7 +259,7 @@ func opPairMap(res *result, kind, st string, A, B pairOp, stuckCh chan string) {
 		wa.v, wb.v = nextVal(opKey), nextVal(opKey)
 		logCase("oppair %s %s A=%s B=%s N=%d", kind, st, A.name, B.name, N)
 		res.Evaluations++
-		ha, hb, parked, stuck := runPair(N, func() *hev { return execMapOp(m, &wa, 0) }, func() *hev { return execMapOp(m, &wb, 1) }, stuckCh)
+		ha, hb, parked, stuck := runPairW(N, func() *hev { return execMapOp(m, &wa, 0) }, func() *hev { return execMapOp(m, &wb, 1) }, stuckCh, kind+st+A.name+B.name)
 		if !parked {
 			return
 		}
@@ -281,7 +301,7 @@ func opPairCache(res *result, kind, st string, A, B pairOp, stuckCh chan string)
 		wa.v, wb.v = nextVal(opKey), nextVal(opKey)
 		logCase("oppair %s %s A=%s B=%s N=%d", kind, st, A.name, B.name, N)
 		res.Evaluations++
-		ha, hb, parked, stuck := runPair(N, func() *hev { return execCacheOp(c, &wa, 0, now, def) }, func() *hev { return execCacheOp(c, &wb, 1, now, def) }, stuckCh)
+		ha, hb, parked, stuck := runPairW(N, func() *hev { return execCacheOp(c, &wa, 0, now, def) }, func() *hev { return execCacheOp(c, &wb, 1, now, def) }, stuckCh, kind+st+A.name+B.name)
 		if !parked {
 			return
 		}
